@@ -626,6 +626,8 @@ fn flush_worker_shards(
         if entries.is_empty() {
             continue;
         }
+        #[cfg(feoxdb_verif)]
+        crate::verif::yield_point("wb.after_drain");
 
         let mut entries = entries.into_iter();
         let mut shard_retries = Vec::new();
@@ -654,6 +656,8 @@ fn flush_worker_shards(
         }
 
         has_retries |= !shard_retries.is_empty();
+        #[cfg(feoxdb_verif)]
+        crate::verif::yield_point("wb.before_requeue");
         buffer.requeue_entries(shard_retries, &ctx.stats, shard_failed);
         ctx.stats.flush_count.fetch_add(1, Ordering::Relaxed);
     }
@@ -765,6 +769,8 @@ fn process_deletions(
         }
 
         entry.record.retire_extent();
+        #[cfg(feoxdb_verif)]
+        crate::verif::yield_point("ret.after_retire");
         if entry.record.extent_has_readers() {
             retries.push(entry);
             continue;
@@ -794,6 +800,8 @@ fn process_deletions(
         }
     }
 
+    #[cfg(feoxdb_verif)]
+    crate::verif::yield_point("ret.before_release_check");
     let mut releasable = Vec::with_capacity(release_operations.len());
     for entry in release_operations {
         if entry.record.extent_has_readers() {
@@ -941,6 +949,8 @@ fn process_write_batch(
             .lock()
             .extend(delete_operations.drain(..));
     }
+    #[cfg(feoxdb_verif)]
+    crate::verif::yield_point("wb.after_queue_deletes");
 
     if !prepared_writes.is_empty() {
         let mut free_space_guard = free_space.write();
@@ -977,6 +987,8 @@ fn process_write_batch(
             batch_writes.push((sector, Bytes::from(std::mem::take(&mut write.data))));
         }
     }
+    #[cfg(feoxdb_verif)]
+    crate::verif::yield_point("wb.after_alloc");
 
     if !batch_writes.is_empty() {
         let mut disk_guard = disk_io.write();
@@ -1123,12 +1135,16 @@ fn process_write_batch(
             crash_at("after_replacement_write");
         }
         for write in &prepared_writes {
+            #[cfg(feoxdb_verif)]
+            crate::verif::yield_point("wb.before_publish");
             write
                 .entry
                 .record
                 .sector
                 .store(write.sector.unwrap(), Ordering::Release);
             std::sync::atomic::fence(Ordering::Release);
+            #[cfg(feoxdb_verif)]
+            crate::verif::yield_point("wb.between_publish_and_clear");
             write.entry.record.clear_value();
         }
         stats.record_write_flushed(prepared_writes.len() as u64);
@@ -1152,9 +1168,16 @@ fn crash_at(point: &str) {
     }
 }
 
+#[cfg(not(feoxdb_verif))]
 #[cfg(not(test))]
 #[inline]
 fn crash_at(_: &str) {}
+
+#[cfg(all(feoxdb_verif, not(test)))]
+#[inline]
+fn crash_at(point: &'static str) {
+    crate::verif::yield_point(point);
+}
 
 fn failed_batch_outcome(
     disk_io: &mut DiskIO,
@@ -1375,6 +1398,8 @@ fn prepare_deferred_record_data(
     if sector == 0 {
         return Err(FeoxError::StaleExtent);
     }
+    #[cfg(feoxdb_verif)]
+    source.verif_note_pin(sector);
     if source.value_len != record.value_len || source.key != record.key {
         return Err(FeoxError::InvalidRecord);
     }
@@ -1399,6 +1424,33 @@ fn prepare_deferred_record_data(
     }
     data[..value_offset].copy_from_slice(&header);
     Ok(data)
+}
+
+#[cfg(feoxdb_verif)]
+impl WriteBuffer {
+    /// Entries buffered per shard (lock-free counters).
+    pub fn verif_shard_counts(&self) -> Vec<usize> {
+        self.sharded_buffers
+            .iter()
+            .map(|shard| shard.count.load(Ordering::Relaxed))
+            .collect()
+    }
+
+    /// Length of the retirement queue, `None` while somebody holds its lock.
+    pub fn verif_retirements_pending(&self) -> Option<usize> {
+        self.retirement_queue
+            .pending
+            .try_lock()
+            .map(|pending| pending.len())
+    }
+
+    pub fn verif_worker_count(&self) -> usize {
+        self.worker_channels.len()
+    }
+
+    pub fn verif_shard_of(&self, key: &[u8]) -> usize {
+        self.get_shard_id(key)
+    }
 }
 
 impl Drop for WriteBuffer {
